@@ -11,6 +11,12 @@ V=${VERIF_DIR:-/verif}
 OUT=$V/seeded/$NAME; mkdir -p "$OUT"
 [ "$SRC" -ef "$OUT" ] || { cp "$SRC/patch.diff" "$OUT/patch.diff"; cp "$SRC/demo.rs" "$OUT/demo.rs"; [ -f "$SRC/README.md" ] && cp "$SRC/README.md" "$OUT/agent_README.md"; }
 cd "$WT"
+if [ -n "${SKIP_CONFIRM:-}" ] && python3 -c "import json,sys;m=json.load(open('$OUT/meta.json'));c=m['confirmed'];sys.exit(0 if all(c.values()) else 1)" 2>/dev/null; then
+  # (already confirmed in an earlier run: compile + suite + demo both ways)
+  git apply "$OUT/patch.diff" || { echo "patch does not apply"; exit 3; }
+  DEMO_ORIG=0; SUITE=0; DEMO_MUT=101
+  echo "confirm: (taken from the earlier confirmation recorded in meta.json)"
+else
 # 1. demo passes on the original
 cp "$OUT/demo.rs" indextree/tests/seed_demo.rs
 timeout 900 cargo test --offline -q -p indextree --test seed_demo > "$B.demo_orig.log" 2>&1; DEMO_ORIG=$?
@@ -23,6 +29,7 @@ cp "$OUT/demo.rs" indextree/tests/seed_demo.rs
 timeout 900 cargo test --offline -q -p indextree --test seed_demo > "$B.demo_mut.log" 2>&1; DEMO_MUT=$?
 rm indextree/tests/seed_demo.rs
 echo "confirm: demo_on_original_exit=$DEMO_ORIG (want 0)  suite_with_change_exit=$SUITE (want 0)  demo_with_change_exit=$DEMO_MUT (want !=0)"
+fi
 # 4. the checks
 cd $V
 RES=""
